@@ -7,6 +7,7 @@
 -/
 import PygModel.Eq
 import PygProofs.Lemmas.EqLemmas
+import PygProofs.Lemmas.EqDictLemmas
 
 namespace Pyg.Props.C14
 open Pyg Pyg.EqM
@@ -106,13 +107,24 @@ theorem eq_dict_class (c d : Nat) (a b : List (String × EVal)) (h : eq (.dict c
     · rintro ⟨x, hx, rfl⟩; exact ⟨x, (mem_sortK x _).2 hx, rfl⟩
   rw [← hm a, ← hm b, hk]
 
-/-- on NaN-free plain values `eq` agrees with Python `==` (`pyEqV`).
-PARTIAL: proved for scalars, dates and arbitrarily nested lists / tuples (`seqPlain`).  Not proved:
-plain dicts, where `eq` compares the key-sorted items and Python compares mappings (agreement
-there needs "two association lists with distinct keys denote the same mapping iff their key-sorted
-forms coincide"); that part is only sampled (ops `pyeq` and `eq` on the same pairs). -/
-theorem eq_agrees_pyeq_partial (a b : EVal) (ha : a.seqPlain = true) (hb : b.seqPlain = true) :
+/-- on NaN-free plain values `eq` agrees with Python `==` (`pyEqV`): for ALL values built from None,
+bools, ints, floats other than NaN, strings, datetimes, dates and arbitrarily nested lists, tuples
+and plain dicts (`EVal.plain`), every dict having distinct (string) keys as every python dict has
+(`EVal.keysOk`).  On dicts `eq` compares the key-sorted item lists position by position while
+python compares mappings (same size, every item of the left found on the right, whatever the
+insertion orders); the two coincide because the key-sorted form of a mapping is unique. -/
+theorem eq_agrees_pyeq (a b : EVal) (ha : a.plain = true) (hb : b.plain = true)
+    (ka : a.keysOk = true) (kb : b.keysOk = true) : eq a b = pyEqV a b :=
+  eq_pyEq_aux _ a b (Nat.le_refl _) ha hb ka kb
+
+/-- special case without dicts (no key hypothesis needed): scalars, dates, nested lists / tuples -/
+theorem eq_agrees_pyeq_seq (a b : EVal) (ha : a.seqPlain = true) (hb : b.seqPlain = true) :
     eq a b = pyEqV a b := eq_pyEq_seq_aux _ a b (Nat.le_refl _) ha hb
+
+/-- the key hypothesis cannot be dropped: with a repeated key (not a python dict) the two differ -/
+theorem eq_agrees_pyeq_needs_keysOk :
+    let x := EVal.dict 0 [("a", .cell (.int 1)), ("a", .cell (.int 2))]
+    x.plain = true ∧ eq x x = true ∧ pyEqV x x = false := by decide
 
 /-! ### in_ -/
 
@@ -153,8 +165,12 @@ example : eq (.series [.int 0, .int 1] [i 1, i 2]) (.series [.int 1, .int 2] [i 
 example : eq (.frame [.int 0] [.str "a"] [i 1]) (.frame [.int 0] [.str "b"] [i 1]) = false := by decide
 -- a date is not the datetime at its midnight
 example : eq (.date 5) (.cell (.dt 5)) = false := by decide
--- the hypotheses of eq_agrees_pyeq_partial
+-- the hypotheses of eq_agrees_pyeq / eq_agrees_pyeq_seq, and an instance with reordered dict items
 example : (EVal.list [i 1, .tuple [f 10, .cell (.str "a")]]).seqPlain = true := by decide
+private def d1 : EVal := .dict 0 [("b", .list [i 1, .dict 0 [("y", f 8), ("x", .date 3)]]), ("a", .tuple [])]
+private def d2 : EVal := .dict 0 [("a", .tuple []), ("b", .list [f 4, .dict 0 [("x", .date 3), ("y", i 2)]])]
+example : d1.plain = true ∧ d2.plain = true ∧ d1.keysOk = true ∧ d2.keysOk = true := by decide
+example : eq d1 d2 = true ∧ pyEqV d1 d2 = true := by decide
 -- a NaN label breaks reflexivity (in the model as in pandas): the hypothesis of eq_refl is needed
 example : eq (.series [.nan] [i 1]) (.series [.nan] [i 1]) = false := by decide
 
